@@ -116,6 +116,11 @@ pub trait Prop: Sync + Send + 'static {
     fn max_shrink_iters(&self) -> u32 {
         3000
     }
+    /// Share of `cases()` that runs in the release profile when the property runs in both profiles
+    /// (the quick tier of the store properties spends most of its budget where the event map grows often).
+    fn release_fraction(&self, _tier: Tier) -> f64 {
+        1.0
+    }
 }
 
 // ------------------------------------------------------------------------------------------
@@ -740,7 +745,10 @@ pub fn run_prop_shared<P: Prop>(p: &P, args: &RunArgs) -> Part {
     }
 
     // 3. random cases
-    let total_cases = args.cases_override.unwrap_or_else(|| p.cases(args.tier));
+    let mut total_cases = args.cases_override.unwrap_or_else(|| p.cases(args.tier));
+    if profile_name() == "release" && args.cases_override.is_none() {
+        total_cases = ((total_cases as f64) * p.release_fraction(args.tier)).ceil() as u32;
+    }
     if total_cases > 0 && !stop.load(Ordering::SeqCst) {
         let per = (total_cases as usize).div_ceil(workers) as u32;
         let mut hs = Vec::new();
